@@ -44,6 +44,59 @@ Theorem C20_model_accept_bij : widening_mul_spec ->
 Proof. exact model_accept_bij. Qed.
 Print Assumptions C20_model_accept_bij.
 
+(* unbiased by construction: for EVERY value t of [low, high] (signed ranges spanning zero included)
+   the words on which one iteration of the loop returns t are v0(t-low) .. v0(t-low)+q-1 — q of them *)
+Theorem C20_one_draw_preimages : widening_mul_spec -> wrapping_add_spec -> wrapping_sub_spec ->
+  forall sg w n low high zone q,
+  0 < w -> (0 < n)%nat -> wf w n low -> wf w n high -> wf w n zone ->
+  tval sg w low <= tval sg w high ->
+  let range := range_of sg w low high in
+  uval w range <> 0 ->
+  uval w zone + 1 = uval w range * q ->
+  forall t, tval sg w low <= t <= tval sg w high ->
+    let v0 := v0_of (Mod w n) (uval w range) (t - tval sg w low) in
+    (0 <= v0 /\ v0 + q <= Mod w n) /\
+    forall v, wf w n v ->
+      ((exists r, one_draw sg w low range zone v = Some r /\ tval sg w r = t) <-> v0 <= uval w v < v0 + q).
+Proof. exact one_draw_preimages. Qed.
+Print Assumptions C20_one_draw_preimages.
+
+(* one_draw is what the loop does with the word it reads *)
+Theorem C20_loop_is_one_draw : forall f sg w low range zone s v rest,
+  U_standard w (length low) s = RVal v rest ->
+  sample_loop (S f) sg w low range zone s =
+    match one_draw sg w low range zone v with
+    | Some r => RVal r rest
+    | None => sample_loop f sg w low range zone rest
+    end.
+Proof. exact sample_loop_one_draw. Qed.
+Print Assumptions C20_loop_is_one_draw.
+
+(* ... and with the zone the code itself computes (sample_single_inclusive: either formula;
+   Uniform::sample: MAX - z): every value of a non-full range has the same number q > 0 of preimages *)
+Theorem C20_sample_single_inclusive_unbiased :
+  widening_mul_spec -> wrapping_add_spec -> wrapping_sub_spec -> rem_spec -> shl_spec -> leading_zeros_spec ->
+  forall sg dbg w n low high zone,
+  0 < w -> (0 < n)%nat -> wf w n low -> wf w n high ->
+  tval sg w low <= tval sg w high ->
+  uval w (range_of sg w low high) <> 0 ->
+  single_zone dbg w (range_of sg w low high) = Ret zone ->
+  equal_preimages sg w n low high zone.
+Proof. exact sample_single_inclusive_unbiased. Qed.
+Print Assumptions C20_sample_single_inclusive_unbiased.
+
+Theorem C20_uniform_sample_unbiased :
+  widening_mul_spec -> wrapping_add_spec -> wrapping_sub_spec -> rem_spec ->
+  forall sg dbg w n low high u zone,
+  0 < w -> (0 < n)%nat -> wf w n low -> wf w n high ->
+  tval sg w low <= tval sg w high ->
+  uval w (range_of sg w low high) <> 0 ->
+  uniform_new_inclusive sg dbg w low high = Ret u ->
+  U_sub dbg w (UMAX w (length (u_range u))) (u_z u) = Ret zone ->
+  equal_preimages sg w n low high zone.
+Proof. exact uniform_sample_unbiased. Qed.
+Print Assumptions C20_uniform_sample_unbiased.
+
 (* ---------- zone_ok ---------- *)
 
 Theorem C20_zone_ok_rem : forall M range, 0 < range -> range < M ->
@@ -206,6 +259,83 @@ Theorem C20_gen_range_signed : range_premises -> I_overflowing_sub_spec ->
     wf w n r /\ sval w low <= sval w r < sval w high.
 Proof. exact I_gen_range_in_range. Qed.
 Print Assumptions C20_gen_range_signed.
+
+(* ---------- in_range, total form ----------
+   With the fuel the run table passes, on ANY stream, each entry point returns a value inside the range or
+   reports that the script ran dry: never a panic (debug or release), never the out-of-fuel marker.
+   (BYTES > 0 is w >= 8; the exclusive forms need w > 1: at one bit `ONE` is -1 in the signed reading.) *)
+
+Theorem C20_sample_single_inclusive_total :
+  widening_mul_spec -> wrapping_add_spec -> wrapping_sub_spec -> rem_spec -> leading_zeros_spec ->
+  U_overflowing_sub_flag_spec -> icmp_spec ->
+  forall sg dbg w n low high s,
+  0 < w -> (0 < n)%nat -> (0 < BYTES w n)%nat -> wf w n low -> wf w n high -> bytes_ok s ->
+  tval sg w low <= tval sg w high ->
+  sample_single_inclusive (fuel_for s) sg dbg w low high s = ROutOfStream \/
+  exists r rest, sample_single_inclusive (fuel_for s) sg dbg w low high s = RVal r rest /\
+                 wf w n r /\ tval sg w low <= tval sg w r <= tval sg w high.
+Proof. exact sample_single_inclusive_total. Qed.
+Print Assumptions C20_sample_single_inclusive_total.
+
+Theorem C20_uniform_new_inclusive_sample_total :
+  widening_mul_spec -> wrapping_add_spec -> wrapping_sub_spec -> rem_spec ->
+  U_overflowing_sub_flag_spec -> icmp_spec ->
+  forall sg dbg w n low high s,
+  0 < w -> (0 < n)%nat -> (0 < BYTES w n)%nat -> wf w n low -> wf w n high -> bytes_ok s ->
+  tval sg w low <= tval sg w high ->
+  uniform_new_inclusive_sample (fuel_for s) sg dbg w low high s = ROutOfStream \/
+  exists r rest, uniform_new_inclusive_sample (fuel_for s) sg dbg w low high s = RVal r rest /\
+                 (wf w n r /\ tval sg w low <= tval sg w r <= tval sg w high).
+Proof. exact uniform_new_inclusive_sample_total. Qed.
+Print Assumptions C20_uniform_new_inclusive_sample_total.
+
+Theorem C20_sample_single_total :
+  widening_mul_spec -> wrapping_add_spec -> wrapping_sub_spec -> I_overflowing_sub_spec ->
+  rem_spec -> leading_zeros_spec -> U_overflowing_sub_flag_spec -> I_overflowing_sub_flag_spec -> icmp_spec ->
+  forall sg dbg w n low high s,
+  1 < w -> (0 < n)%nat -> (0 < BYTES w n)%nat -> wf w n low -> wf w n high -> bytes_ok s ->
+  tval sg w low < tval sg w high ->
+  sample_single (fuel_for s) sg dbg w low high s = ROutOfStream \/
+  exists r rest, sample_single (fuel_for s) sg dbg w low high s = RVal r rest /\
+                 (wf w n r /\ tval sg w low <= tval sg w r < tval sg w high).
+Proof. exact sample_single_total. Qed.
+Print Assumptions C20_sample_single_total.
+
+Theorem C20_uniform_new_sample_total :
+  widening_mul_spec -> wrapping_add_spec -> wrapping_sub_spec -> I_overflowing_sub_spec ->
+  rem_spec -> U_overflowing_sub_flag_spec -> I_overflowing_sub_flag_spec -> icmp_spec ->
+  forall sg dbg w n low high s,
+  1 < w -> (0 < n)%nat -> (0 < BYTES w n)%nat -> wf w n low -> wf w n high -> bytes_ok s ->
+  tval sg w low < tval sg w high ->
+  uniform_new_sample (fuel_for s) sg dbg w low high s = ROutOfStream \/
+  exists r rest, uniform_new_sample (fuel_for s) sg dbg w low high s = RVal r rest /\
+                 (wf w n r /\ tval sg w low <= tval sg w r < tval sg w high).
+Proof. exact uniform_new_sample_total. Qed.
+Print Assumptions C20_uniform_new_sample_total.
+
+Theorem C20_gen_range_total :
+  widening_mul_spec -> wrapping_add_spec -> wrapping_sub_spec -> I_overflowing_sub_spec ->
+  rem_spec -> leading_zeros_spec -> U_overflowing_sub_flag_spec -> I_overflowing_sub_flag_spec -> icmp_spec ->
+  forall sg dbg w n low high s,
+  1 < w -> (0 < n)%nat -> (0 < BYTES w n)%nat -> wf w n low -> wf w n high -> bytes_ok s ->
+  tval sg w low < tval sg w high ->
+  gen_range (fuel_for s) sg dbg w low high s = ROutOfStream \/
+  exists r rest, gen_range (fuel_for s) sg dbg w low high s = RVal r rest /\
+                 (wf w n r /\ tval sg w low <= tval sg w r < tval sg w high).
+Proof. exact gen_range_total. Qed.
+Print Assumptions C20_gen_range_total.
+
+Theorem C20_gen_range_inclusive_total :
+  widening_mul_spec -> wrapping_add_spec -> wrapping_sub_spec -> rem_spec -> leading_zeros_spec ->
+  U_overflowing_sub_flag_spec -> icmp_spec ->
+  forall sg dbg w n low high s,
+  0 < w -> (0 < n)%nat -> (0 < BYTES w n)%nat -> wf w n low -> wf w n high -> bytes_ok s ->
+  tval sg w low <= tval sg w high ->
+  gen_range_inclusive (fuel_for s) sg dbg w low high s = ROutOfStream \/
+  exists r rest, gen_range_inclusive (fuel_for s) sg dbg w low high s = RVal r rest /\
+                 wf w n r /\ tval sg w low <= tval sg w r <= tval sg w high.
+Proof. exact gen_range_inclusive_total. Qed.
+Print Assumptions C20_gen_range_inclusive_total.
 
 (* ---------- the model's own helpers ---------- *)
 
